@@ -189,6 +189,13 @@ func c19Check(r *Run, l *Local, t *etree) {
 			}
 		}()
 	}
+	// (what follows ranges over iterators outside the per-position recover of the loop above: a panic raised there - by the
+	// Go runtime, when an iterator goes on after its consumer stopped - is a violation to report, not a reason to die)
+	defer func() {
+		if p := recover(); p != nil {
+			r.Violate("panic-during-traversal", "early-exit", fmt.Sprintf("tree %s: panic while ranging over a re-used iterator value: %v", t, p), c19Case{t, -1})
+		}
+	}()
 	// ONE iterator value used again and again (an iter.Seq is a function value: nothing says it is single-use): a full
 	// traversal, then for every break position an early exit followed by a full traversal, all on the same value
 	// (lesson of seeded change C19-i: traversal state kept in the closure that All returns instead of per traversal)
